@@ -15,6 +15,8 @@ from concurrent.futures import ThreadPoolExecutor
 VERIF = os.path.dirname(os.path.dirname(os.path.abspath(__file__)))
 REPO = os.environ.get('VERIF_REPO', '/repo')
 BUILD = os.path.join(VERIF, 'build')
+# where evidence / replays go (overridden by the self-tests so that runs against modified trees never touch /verif/evidence)
+OUT = os.environ.get('VERIF_OUT', VERIF)
 NCPU = 16
 
 COMMON_FLAGS = ['-std=c++17', '-g', '-fno-omit-frame-pointer', '-DFASTSCAPELIB_VERIF_HOOKS', '-pthread']
@@ -500,11 +502,11 @@ def main(argv):
 
 
 def replay_path(pid, job, k, key):
-    os.makedirs(os.path.join(VERIF, 'replays'), exist_ok=True)
+    os.makedirs(os.path.join(OUT, 'replays'), exist_ok=True)
     safe = re.sub(r'[^A-Za-z0-9_.-]+', '_', key)[:60]
     name = '%s-%s_%s-%s-seed%d-shard%dof%d-k%d-%s.json' % (pid, job.harness, job.kind, job.flavour, job.seed, job.shard,
                                                          job.nshards, k, safe)
-    return os.path.join(VERIF, 'replays', name)
+    return os.path.join(OUT, 'replays', name)
 
 
 def write_replay(pid, job, v):
@@ -516,14 +518,14 @@ def write_replay(pid, job, v):
     rec = {'property': pid, 'reported_property': v['prop'], 'key': v['key'], 'harness': job.harness, 'kind': job.kind,
            'flavour': job.flavour, 'prop_arg': job.prop, 'seed': job.seed, 'shard': job.shard, 'nshards': job.nshards,
            'cases': job.cases, 'tier': job.tier, 'extra': job.extra, 'k': v['k'], 'witness': wit,
-           'how_to_replay': './check %s --replay %s' % (pid, os.path.relpath(path, VERIF))}
+           'how_to_replay': './check %s --replay %s' % (pid, os.path.relpath(path, OUT))}
     with open(path, 'w') as f:
         json.dump(rec, f, indent=1)
-    return os.path.relpath(path, VERIF)
+    return os.path.relpath(path, OUT)
 
 
 def do_replay(pid, path):
-    rec = json.load(open(path if os.path.isabs(path) else os.path.join(VERIF, path)))
+    rec = json.load(open(path if os.path.isabs(path) else os.path.join(OUT, path)))
     bins = build([(rec['harness'], rec['kind'], rec['flavour'])])
     j = Job(bins[(rec['harness'], rec['kind'], rec['flavour'])], rec['harness'], rec['kind'], rec['flavour'],
             rec['prop_arg'], rec['seed'], rec['shard'], rec['nshards'], rec['cases'], rec['tier'], rec['extra'])
@@ -635,7 +637,7 @@ def summarise(pid, tier, seed, spec, jobs, wall):
     if exhaustive is not None:
         ev['coverage']['exhaustive'] = bool(exhaustive)
         ev['coverage']['exhaustive_scope'] = spec.get('exhaustive_scope', '')
-    os.makedirs(os.path.join(VERIF, 'evidence'), exist_ok=True)
+    os.makedirs(os.path.join(OUT, 'evidence'), exist_ok=True)
 
     rc = 0
     for (kp, kkey), n in sorted(known_seen.items()):
@@ -668,7 +670,7 @@ def summarise(pid, tier, seed, spec, jobs, wall):
         rc = 2
     for idn, k, why in inconclusive[:10]:
         log('inconclusive: %s case %d: %s' % (idn, k, why))
-    with open(os.path.join(VERIF, 'evidence', pid + '.json'), 'w') as f:
+    with open(os.path.join(OUT, 'evidence', pid + '.json'), 'w') as f:
         json.dump(ev, f, indent=1, sort_keys=True)
     log('[%s] %s: %d executions, %d distinct non-trivial, %d new violations, %d known findings, %d inconclusive, %.0f s'
         % (pid, {0: 'HELD on what was explored', 1: 'VIOLATED', 2: 'INCONCLUSIVE/FAILED'}[rc], evaluations, distinct,
